@@ -237,3 +237,117 @@ _add(Cond('cumsum_both_axes', [(f'v{r}{c}', 'int') for r in range(2) for c in ra
         functions=['Frame._ufunc_shape_skipna'],
         bounds='2x3 float64 frame; cells unbounded symbolic ints or NaN',
         route='Frame.cumsum(axis, skipna=True): shape and labels kept, running sums per line', timeout=300))
+
+
+# ---------------------------------------------------------------- dtype mixes x ALL block layouts (concrete cells, symbolic structure)
+# The symbolic inputs are STRUCTURAL: the kind of every column (int64 / float64 / bool), which float
+# cells are missing, skipna.  Each solver path fixes them, then the real reduction runs over EVERY block
+# layout that can hold those columns and is compared with the per-line computation on frame.values
+# (the property's own oracle: "the same function applied independently to every column / row of its
+# values") and thereby across layouts.
+
+KINDS = (('int64', (3, 4)), ('float64', (1.5, 2.5)), ('bool', (True, True)))
+FLOAT_BASE = (0.1, 0.2, 0.3)   # per column: 0.1 + 0.2 + 0.3 != 0.1 + (0.2 + 0.3), so a row sum regrouped per block shows
+
+
+def cell_value(kind, r, c):
+    if kind == 1:
+        return FLOAT_BASE[c] + r
+    return KINDS[kind][1][r]
+
+
+def _conc(v, lo, hi):
+    for k in range(lo, hi + 1):
+        if v == k:
+            return k
+    raise AssertionError('out of range')
+
+
+def lays_for(kinds):
+    out = []
+    for lay in layouts.compositions(len(kinds)):
+        j, ok = 0, True
+        for nd, w in lay:
+            if len(set(kinds[j:j + w])) > 1:
+                ok = False
+            j += w
+        if ok:
+            out.append(lay)
+    return out
+
+
+def obs_series(env, s):
+    return [env.obs(s.index.values.tolist()), s.values.dtype.kind, env.obs(s.values.tolist())]
+
+
+def mk_mixed(op, nrows, axis, region=None, region_pre=None, tier='quick'):
+    """region: None = whole input space; otherwise (name, precondition) isolating a known-finding region; region_pre of the
+    main condition is its complement."""
+    def body(env, k0, k1, k2, m0, m1, m2, skipna):
+        from vf import rt
+        kinds = [_conc(k, 0, 2) for k in (k0, k1, k2)]
+        miss = [bool(m0), bool(m1), bool(m2)]
+        skipna = bool(skipna)
+
+        def run():
+            sf = env.sf
+            from static_frame.core.type_blocks import TypeBlocks
+            cols = [[(env.nan if (miss[c] and r == 0) else cell_value(kinds[c], r, c)) for r in range(nrows)] for c in range(3)]
+            dts = [KINDS[k][0] for k in kinds]
+            got, oracle = [], None
+            for lay in lays_for(kinds):
+                tb = TypeBlocks.from_blocks(layouts.build_blocks_typed(env, cols, dts, lay))
+                f = sf.Frame(tb, index=[100 + r for r in range(nrows)], columns=['a', 'b', 'c'])
+                try:
+                    got.append(obs_series(env, getattr(f, op)(axis=axis, skipna=skipna)))
+                except Exception as e:  # noqa: BLE001
+                    got.append(['raises', type(e).__name__])
+                if oracle is None:
+                    vals = f.values
+                    labels = ['a', 'b', 'c'] if axis == 0 else [100 + r for r in range(nrows)]
+                    try:
+                        res = []
+                        for i in range(len(labels)):
+                            line = vals[:, i] if axis == 0 else vals[i]
+                            res.append(env.obs(getattr(sf.Series(line), op)(skipna=skipna)))
+                        oracle = [labels, res]
+                    except Exception as e:  # noqa: BLE001
+                        oracle = ['raises', type(e).__name__]
+            # dtype of the result is compared ACROSS layouts (the per-line oracle yields elements, not an array)
+            exp = []
+            for g in got:
+                if g[0] == 'raises' or oracle[0] == 'raises':
+                    exp.append(oracle)
+                else:
+                    exp.append([oracle[0], got[0][1] if got[0][0] != 'raises' else g[1], oracle[1]])
+            return got, exp
+        return rt.untraced(run)
+    pre = ['k0 == 1 or not m0', 'k1 == 1 or not m1', 'k2 == 1 or not m2']
+    if region is not None:
+        pre.append(region[1])
+    elif region_pre:
+        pre.append(region_pre)
+    name = f'mixed_{op}_axis{axis}_{nrows}row' + (f'_{region[0]}_finding' if region else '')
+    return Cond(name, [('k0', 'int'), ('k1', 'int'), ('k2', 'int'), ('m0', 'bool'), ('m1', 'bool'), ('m2', 'bool'), ('skipna', 'bool')], body,
+            ranges={'k0': (0, 2), 'k1': (0, 2), 'k2': (0, 2)}, pre=pre,
+            functions=['TypeBlocks.ufunc_axis_skipna', 'ufunc_axis_skipna'],
+            bounds=f'{nrows}x3 frame; the kind of every column symbolic in (int64, float64, bool) (so the row dtype is int, float or object), a symbolic missing flag on the first cell of every float column, skipna symbolic; concrete cell values; EVERY block layout of 3 columns that can hold the kinds',
+            route=f'Frame.{op}(axis={axis}, skipna) over every layout == Series(line of frame.values).{op}(skipna) per line; result dtype equal across layouts', tier=tier, timeout=400)
+
+
+# Regions isolated as known findings (see known_findings.json F23, F24)
+_OBJ = '(not (k0 == k1 == k2)) and (k0 == 2 or k1 == 2 or k2 == 2)'   # row dtype object: a bool column next to a non-bool one
+_ANYM = '(m0 or m1 or m2)'
+R_A = ('allnan_object', f'skipna and {_ANYM} and {_OBJ}')
+R_C = ('nan_bool_noskip', f'(not skipna) and {_ANYM} and {_OBJ}')
+for _op in ('sum', 'prod'):
+    for _ax in (0, 1):
+        _add(mk_mixed(_op, 1, _ax))
+        _add(mk_mixed(_op, 2, _ax, tier='quick' if _op == 'sum' else 'thorough'))
+for _op in ('min', 'max'):
+    _add(mk_mixed(_op, 1, 0, region_pre=f'not ({R_A[1]})'))
+    _add(mk_mixed(_op, 1, 0, region=R_A))
+    _add(mk_mixed(_op, 2, 0, tier='thorough'))
+    for _n in (1, 2):
+        _add(mk_mixed(_op, _n, 1, region_pre=f'not ({R_C[1]})', tier='quick' if _n == 1 else 'thorough'))
+        _add(mk_mixed(_op, _n, 1, region=R_C, tier='quick' if _n == 1 else 'thorough'))
